@@ -232,9 +232,9 @@ def scan(state, groups, tid):
                     bal = {"mass": E.e8([v[j] for v in terms["mass"]], 1e-3 * f["rho"][j] * S / Lh),
                            "mom": E.e8([v[j] for v in terms["mom"]], 1e-3 * S * S / Lh),
                            "ener": E.e8([v[j] for v in terms["ener"]], 1e-3 * S ** 3 / Lh)}
-                # three decades down a fan towards a vacuum the fields follow a steep power law that a stencil with a step of 1/40 of the
+                # two decades down a fan towards a vacuum the fields follow a steep power law that a stencil with a step of 1/40 of the
                 # fan does not resolve (truncation 1e-6 ... 3e-4): no smooth-law verdict there (values, EOS and monotonicity are still judged)
-                resolved = f["p"][j] >= 1e-3 * max(par["pl"], par["pr"])
+                resolved = f["p"][j] >= 2e-2 * max(par["pl"], par["pr"])
                 e = {"k": "Pt", "tid": tid, "reg": FANS[i], "fin": True, "smooth": bool(resolved), "x": E.sl(xs[j] - xd0),
                      "v": {k: E.sl(f[k][j]) for k in f}, "bal": bal if resolved else {}}
                 ev.append(e)
